@@ -61,9 +61,9 @@ fam({'C17': ('main', 'all')},
     n=(80, 300, 2000, 6000))
 F['C17'] = dict(F['C17'], l2gate=dict(driver='worker', tv='WorkerL2TV', n=(100, 1500)),
                 # real contention: thousands of back-to-back Do / done pairs per execution (free-running only)
-                legs=[dict(driver='worker', profile='stress', prop='all', tv='WorkerTV', n=(0, 100, 0, 800), mc_quick=[], mc_thorough=[])])
+                legs=[dict(driver='worker', profile='stress', prop='all', tv='WorkerTV', n=(0, 300, 0, 1500), mc_quick=[], mc_thorough=[])])
 F['C14'] = dict(F['C14'], l2gate=dict(driver='workers', tv='WorkersL2TV', n=(60, 1000)),
-                legs=[dict(driver='workers', profile='stress', prop='all', tv='WorkersTV', n=(0, 30, 0, 300), mc_quick=[], mc_thorough=[])])
+                legs=[dict(driver='workers', profile='stress', prop='all', tv='WorkersTV', n=(0, 100, 0, 600), mc_quick=[], mc_thorough=[])])
 fam({'C09': ('keys', 'all'), 'C10': ('main', 'all')},
     driver='exclusive', tv='ExclusiveTV',
     mc_quick=[('ExclusiveL2', 'ExclusiveL2'), ('ExclusiveL2', 'ExclusiveL2_neg'), ('ExclusiveL2', 'ExclusiveL2_witness')],
@@ -71,7 +71,7 @@ fam({'C09': ('keys', 'all'), 'C10': ('main', 'all')},
     n=(80, 300, 2000, 6000))
 # real contention: a few hundred back-to-back calls per execution (free-running, no perturbation)
 for _pid in ('C09', 'C10'):
-    F[_pid] = dict(F[_pid], legs=[dict(driver='exclusive', profile='stress', prop='all', tv='ExclusiveTV', n=(0, 20, 0, 200), mc_quick=[], mc_thorough=[])])
+    F[_pid] = dict(F[_pid], legs=[dict(driver='exclusive', profile='stress', prop='all', tv='ExclusiveTV', n=(0, 40, 0, 300), mc_quick=[], mc_thorough=[])])
 fam({'C06': ('main', 'all'), 'C07': ('main', 'all')},
     driver='pubsub', tv='PubSubTV',
     mc_quick=[('PubSubL2', 'PubSubL2')], mc_thorough=[('PubSubL2', 'PubSubL2'), ('PubSubL2', 'PubSubL2_2s'), ('PubSubL2', 'PubSubL2_3u')],
